@@ -49,6 +49,7 @@ func (fio *FileIO) Close() error {
 
 func (fio *FileIO) Truncate(size int64) error {
 	// 文件以追加模式打开, 截断后的写入自动从新的文件末尾开始
+	verifhook.IO(verifhook.IOTruncate, fio.fd.Name(), size)
 	return fio.fd.Truncate(size)
 }
 
